@@ -618,6 +618,20 @@ def h_clades_rec(I, fi):
         def __init__(self, nd):
             self.nd = nd
 
+        def set_comprehension(self, I_, cnode, gen, fr2):
+            # {dp.idx for dp in tree.get_data(node)}: the same collection as the add-loop builds
+            from pyvc.interp import Frame
+            e = Opaque("a-data-point")
+            e.a_idx = lambda I2: ("idx-of", e)
+            sub = Frame(fr2.module, fr2.func, fr2.cls)
+            sub.vars = dict(fr2.vars)
+            I_.assign_target(gen.target, e, sub)
+            ok = not gen.ifs and I_.eval(cnode.elt, sub) == ("idx-of", e)
+            I_.P.check("clades.own-indices", ok, "every data point of the node contributes exactly its index", kind="post")
+            made.append(1)
+            cur.parts.append(("own-indices", self.nd.key()))
+            return cur
+
         def for_loop(self, I_, lnode, fr):
             e = Opaque("a-data-point")
             e.a_idx = lambda I2: ("idx-of", e)
